@@ -34,8 +34,18 @@ PARTIAL = ('proved for all L >= 1 and all parameters (Properties/C06.v): the shi
            'whenever some local chain that fits has a non-zero coefficient (some_term, equivalent to: not all resulting chain coefficients vanish) the shifted '
            'chain list is well formed, the constructor\'s graph exists, is linked, cannot fail is_consistent, has length L and denotes the textbook formula '
            '-- no "returns Ok" hypothesis. '
-           'NOT proved: dense-matrix equality for all L '
-           '(only through C05_chains_to_mpo under its per-case hypotheses), the Jordan-Wigner padding lemma for general L (two-site products kernel-checked), sqrt entries of spin-1 / boson maps (abstract elements with the stated square).')
+           'JORDAN-WIGNER LINK FOR EVERY L (Proofs/HamJW*.v): the second-quantised Fermi-Hubbard formula -t sum (a+_{i,s} a_{i+1,s} + h.c.) + U sum (n_up - 1/2)(n_dn - 1/2) '
+           '- mu sum (n_up + n_dn) is written literally with Jordan-Wigner mode operators a_k = I^k a Z^(2L-1-k) on 2L modes (0 up, 0 dn, 1 up, ...; products sitewise with '
+           'the signs of the checked 2x2 table omul); for every L the Z strings cancel outside the two sites (C06_jw_padding, C06_jw_hopping_words, C06_jw_number_words) and the '
+           'textbook word sum of the constructor graph, every site letter replaced by its expansion into pairs of mode letters (table exact entry by entry over any ring with '
+           'half + half = 1, C06_fermi_letter_entries), equals the formula on every mode word (C06_fermi_hubbard_jw_all_L, C06_fermi_hubbard_graph_jw); letter substitution preserves '
+           'matrix elements for any number of sites (C06_fermi_expand_sem), so every matrix element of the MPO equals that of the second-quantised formula between occupation-number '
+           'states for every L >= 1 (C06_fermi_hubbard_dense_jw, under the per-case checked hypotheses of C06_spec_mpo: linked graph, from_opgraph returns, last layer = end terminal); '
+           'linear fermionic graph = sum_i coeff_i JW(a+_i | a_i) with the same words (C06_linferm_jw); boson map: b+ b = n, [b, b+] = 1 below the top level (-(d-1) on it), '
+           '2 (n(n-1)/2) = n(n-1) over any ring from sq k * sq k = k alone (C06_bose_opmap_relations). '
+           'NOT proved: dense-matrix equality for all L for the spin and boson models '
+           '(only through C05_chains_to_mpo under its per-case hypotheses); that sitewise word products are matrix products is used through the checked 2x2 table only '
+           '(mixed-product property of the Kronecker product not restated); sqrt entries of spin-1 / boson maps stay abstract elements with the stated square.')
 ASSUMPTIONS = ['"documented formula" = the docstring read with: first site most significant, Jordan-Wigner strings to the right (I..I a Z..Z), local basis |n_up n_dn>']
 RULE = ('models: Ising, XXZ spin-1/2, XXZ spin-1, Bose-Hubbard (d in 1..4), Fermi-Hubbard, linear fermionic (both types, complex coefficients); '
         'L from 1 (chains shorter than the longest local term) to dense reach (d=2: 8, d=3: 5, d=4: 4); parameters from {0, 1, -1, dyadic, generic} '
